@@ -110,6 +110,11 @@ def descend(prop, ops, sig, budget):
                         c3 = copy.deepcopy(op)
                         c3[2]["p"][k] = DEFAULT_COSTS[k]
                         cands.append(c3)
+            for k in ("call", "costs_int"):
+                if cfg["p"].get(k):
+                    c2 = copy.deepcopy(op)
+                    del c2[2]["p"][k]
+                    cands.append(c2)
             if cfg["p"].get("traj") == "revolve":
                 c2 = copy.deepcopy(op)
                 c2[2]["p"]["traj"] = "maximum"
